@@ -1124,8 +1124,10 @@ impl ByteCompiler<'_> {
                         // 4. Else,
                         else {
                             // a. Let initialValue be ! env.GetBindingValue(n, false).
+                            //    `env` is the environment of the parameters: the outer scope of `varEnv`.
                             let binding = scope
-                                .get_binding_reference(&n_string)
+                                .outer()
+                                .and_then(|env| env.get_binding_reference(&n_string))
                                 .expect("must have binding");
                             let index = self.get_binding(&binding);
                             self.emit_binding_access(BindingAccessOpcode::GetName, &index, &value);
@@ -1133,9 +1135,6 @@ impl ByteCompiler<'_> {
 
                         // 5. Perform ! varEnv.InitializeBinding(n, initialValue).
                         let index = self.insert_binding(binding);
-
-                        // TODO: What?
-                        self.bytecode.emit_store_undefined(value.variable());
                         self.emit_binding_access(BindingAccessOpcode::DefInitVar, &index, &value);
                         self.register_allocator.dealloc(value);
 
